@@ -49,7 +49,11 @@ Definition located (g : gen_in) (a : apk) : option doc :=
   match locate (g_fs g) (candidates (a_name a) (a_version a)) with Some (FDoc e) => Some e | _ => None end.
 Definition targets_of (g : gen_in) (a : apk) : list string :=
   match located g a with Some e => targets (a_name a) e | None => [] end.
-Definition all_targets (g : gen_in) : list string := List.concat (List.map (targets_of g) (g_apks g)).
+(* target ids of the apks whose embedded document describes three or more
+   elements carrying the apk's name: the only ids the replace loop can still
+   leave dangling after fix 494ce81 *)
+Definition all_targets (g : gen_in) : list string :=
+  List.concat (List.map (fun a => let t := targets_of g a in if Nat.leb 3 (List.length t) then t else []) (g_apks g)).
 
 Definition structural_ids (g : gen_in) : list string := List.map p_id (d_pkgs (base_doc g)).
 
@@ -64,7 +68,7 @@ Definition validate_gen (g : gen_in) (d : doc) : list string :=
   let apk_id a := p_id (apk_package (nonce_of g) a) in
   tag_if (negb (ids_unique_b d)) "viol:dup-id" ++
   tag_if (negb (forallb valid_id_b (ids d))) "viol:id-syntax" ++
-  uniq_tags (List.map (fun x => if mem x (all_targets g) then "viol:dangling-ref/replaced-target" else "viol:dangling-ref")
+  uniq_tags (List.map (fun x => if mem x (all_targets g) then "viol:dangling-ref/replace-loop-three-targets" else "viol:dangling-ref")
                       (dangling_rel_ends d)) ++
   tag_if (match dangling_described d with [] => false | _ => true end) "viol:dangling-described" ++
   uniq_tags (List.concat (List.map (fun a =>
